@@ -25,6 +25,12 @@ class FalsyErr(Exception):
         return False
 def deep(k, cls, msg):
     return boom(k, cls, msg)
+async def aboom(k, cls, msg):
+    return boom(k, cls, msg)
+import contextlib as _ctxlib
+@_ctxlib.asynccontextmanager
+async def actx():
+    yield 1
 '''
 
 HDR = 'Traceback (most recent call last):'
@@ -135,7 +141,9 @@ def build_cases(ctx):
                 for flags in flagsets:
                     for pos, n in ((0, 1), (0, 3), (1, 3), (2, 3)):
                         if not quick or rng.random() < 0.45 or (pos, n) == (1, 3):
-                            for how in (['boom', 'deep'] if (pos, n) == (1, 3) else ['boom']):
+                            # (in the middle position also: raised below another frame; raised by an awaited call written over two lines; raised
+                            # inside an `async with` block - statements that the doctest's own event loop has to drive)
+                            for how in (['boom', 'deep', 'await_ml', 'async_with'] if (pos, n) == (1, 3) else ['boom']):
                                 cases.append(make_case(cls, printed, msg, form, want, flags, pos, n, how))
     # exceptions whose rendering has several lines (a syntax error found while the doctest RUNS carries its location):
     # the want's final line is compared with the 'Type: message' line, not with the location lines
@@ -176,8 +184,14 @@ def make_case(cls, printed, msg, form, want, flags, pos, n, how):
     for i in range(n):
         if i == pos:
             s = gendoc.Stmt('assign', 10 + i)
-            s.lines = ['%s(%d, %s, %r)' % (how, 10 + i, cls, msg)]
-            s.is_expr = True
+            if how == 'await_ml':
+                s.lines = ['await aboom(%d,' % (10 + i), '            %s, %r)' % (cls, msg)]
+                s.is_expr = True
+            elif how == 'async_with':
+                s.lines = ['async with actx():', '    boom(%d, %s, %r)' % (10 + i, cls, msg)]
+            else:
+                s.lines = ['%s(%d, %s, %r)' % (how, 10 + i, cls, msg)]
+                s.is_expr = True
             stmts.append(s)
         else:
             stmts.append(gendoc.Stmt(['print', 'assign', 'expr'][i % 3], 10 + i))
